@@ -15,10 +15,13 @@ Requests (space separated tokens, no spaces inside a token):
 Values use the canonical text of `vharness::canon` plus `T:<type>` for type objects and `F<n>` for
 function tokens (both are printed back as `<func>`).
 Patterns: `U` | `I<n>` | `X<n>[ix,…]` (ix = value | `@lo:hi`) | `A(p)` | `A(p,v)` | `D(p,v)` | `S(p,…)` | `L(p,…)` | `P(p)` |
-`O(a,b)` | `N(a,b)` | `V(v)` | `B<builtin>(p,…)` | `C<sid>(p,…)`.
+`O(a,b)` | `N(a,b)` | `V(v)` | `B<builtin>(p,…)` | `C<sid>(p,…)` | `H(p0;<builtin>,p1;…)` (an
+unparenthesised operator chain, resolved by `LvalueChainEvaluator` on the Impl side and by the
+expression grammar on the Spec side).
 Response: `<impl>\t<spec>\t<diagnostics>`. -/
 import NoulithModel.Spec.Match
 import NoulithModel.Spec.TypedStore
+import NoulithModel.Impl.PatternChain
 
 namespace Noulith.DriverC12
 open Noulith Noulith.C12
@@ -200,7 +203,7 @@ def parseBi (s : String) : Option Bi :=
   | _ =>
     if s.startsWith "cmp" then
       ((s.drop 3).toString.splitOn ":" |>.filter (· ≠ "")).mapM parseCmp |>.map Bi.cmp
-    else if s.startsWith "other" then some (.other 0)
+    else if s.startsWith "other" then some (.other ((s.drop 5).toString.toNat?.getD 0))
     else none
 
 /-- an index-path entry: a value, or a slice `@<lo>:<hi>` (either bound may be empty) -/
@@ -231,7 +234,7 @@ partial def pIxs : P (List Ix) := fun cs =>
     | _ => none
 
 mutual
-partial def pPat : P Pat := fun cs =>
+partial def pPat (sp : Bool) : P Pat := fun cs =>
   match cs with
   | 'U' :: r => some (.underscore, r)
   | 'I' :: r => (pNat r).map fun (n, r) => (.ident n [], r)
@@ -240,7 +243,7 @@ partial def pPat : P Pat := fun cs =>
     | some (n, '[' :: r2) => (pIxs r2).map fun (ixs, r3) => (.ident n ixs, r3)
     | _ => none
   | 'A' :: '(' :: r =>
-    match pPat r with
+    match pPat sp r with
     | some (p, ')' :: r2) => some (.anno p none, r2)
     | some (p, ',' :: r2) =>
       (match pVal r2 with
@@ -248,29 +251,29 @@ partial def pPat : P Pat := fun cs =>
        | _ => none)
     | _ => none
   | 'D' :: '(' :: r =>
-    match pPat r with
+    match pPat sp r with
     | some (p, ',' :: r2) =>
       (match pVal r2 with
        | some (v, ')' :: r3) => some (.withDefault p v, r3)
        | _ => none)
     | _ => none
-  | 'S' :: '(' :: r => (pPats r).map fun (ps, r) => (.seq ps false, r)
-  | 'L' :: '(' :: r => (pPats r).map fun (ps, r) => (.seq ps true, r)
+  | 'S' :: '(' :: r => (pPats sp r).map fun (ps, r) => (.seq ps false, r)
+  | 'L' :: '(' :: r => (pPats sp r).map fun (ps, r) => (.seq ps true, r)
   | 'P' :: '(' :: r =>
-    match pPat r with
+    match pPat sp r with
     | some (p, ')' :: r2) => some (.splat p, r2)
     | _ => none
   | 'O' :: '(' :: r =>
-    match pPat r with
+    match pPat sp r with
     | some (a, ',' :: r2) =>
-      (match pPat r2 with
+      (match pPat sp r2 with
        | some (b, ')' :: r3) => some (.or a b, r3)
        | _ => none)
     | _ => none
   | 'N' :: '(' :: r =>
-    match pPat r with
+    match pPat sp r with
     | some (a, ',' :: r2) =>
-      (match pPat r2 with
+      (match pPat sp r2 with
        | some (b, ')' :: r3) => some (.and a b, r3)
        | _ => none)
     | _ => none
@@ -281,19 +284,43 @@ partial def pPat : P Pat := fun cs =>
   | 'B' :: r =>
     let name := r.takeWhile (· != '(')
     match parseBi (String.ofList name), r.drop name.length with
-    | some b, '(' :: r2 => (pPats r2).map fun (ps, r3) => (.destr b ps, r3)
+    | some b, '(' :: r2 => (pPats sp r2).map fun (ps, r3) => (.destr b ps, r3)
     | _, _ => none
+  | 'H' :: '(' :: r =>
+    -- an unparenthesised operator chain `p0 f1 p1 f2 p2 …`: the Impl side resolves it with the
+    -- transcription of `LvalueChainEvaluator`, the Spec side with the expression grammar
+    match pPat sp r with
+    | some (first, r1) =>
+      (match pChainOps sp r1 with
+       | some (ops, r2) =>
+         (match (if sp then specResolveChain first ops else resolveChain first ops) with
+          | .ok p => some (p, r2)
+          | _ => none)
+       | none => none)
+    | none => none
   | 'C' :: r =>
     match pNat r with
-    | some (sid, '(' :: r2) => (pPats r2).map fun (ps, r3) => (.destrStruct sid ps, r3)
+    | some (sid, '(' :: r2) => (pPats sp r2).map fun (ps, r3) => (.destrStruct sid ps, r3)
     | _ => none
   | _ => none
-partial def pPats : P (List Pat) := fun cs =>
+partial def pChainOps (sp : Bool) : P (List (Bi × Pat)) := fun cs =>
+  match cs with
+  | ')' :: r => some ([], r)
+  | ';' :: r =>
+    let name := r.takeWhile (· != ',')
+    match parseBi (String.ofList name), r.drop name.length with
+    | some b, ',' :: r2 =>
+      (match pPat sp r2 with
+       | some (p, r3) => (pChainOps sp r3).map fun (ops, r4) => ((b, p) :: ops, r4)
+       | none => none)
+    | _, _ => none
+  | _ => none
+partial def pPats (sp : Bool) : P (List Pat) := fun cs =>
   match cs with
   | ')' :: r => some ([], r)
   | _ =>
-    match pPat cs with
-    | some (p, ',' :: r) => (pPats r).map fun (ps, r2) => (p :: ps, r2)
+    match pPat sp cs with
+    | some (p, ',' :: r) => (pPats sp r).map fun (ps, r2) => (p :: ps, r2)
     | some (p, ')' :: r) => some ([p], r)
     | _ => none
 end
@@ -305,12 +332,12 @@ def parseOp (s : String) : Option Op :=
   | "concat" => some .concat | _ => none
 
 /-- `Sa(pat,val)` | `Se(pat,val)` | `So<op>(pat,val)` | `Sm<op>(pat,val)` | `Sw(pat,pat)` -/
-def pStmt : P Stmt := fun cs =>
+def pStmt (sp : Bool) : P Stmt := fun cs =>
   match cs with
   | 'S' :: 'w' :: '(' :: r =>
-    match pPat r with
+    match pPat sp r with
     | some (a, ',' :: r2) =>
-      (match pPat r2 with
+      (match pPat sp r2 with
        | some (b, ')' :: r3) => some (.swap a b, r3)
        | _ => none)
     | _ => none
@@ -318,7 +345,7 @@ def pStmt : P Stmt := fun cs =>
     let name := r.takeWhile (· != '(')
     match r.drop name.length with
     | '(' :: r1 =>
-      match pPat r1 with
+      match pPat sp r1 with
       | some (p, ',' :: r2) =>
         (match pVal r2 with
          | some (v, ')' :: r3) =>
@@ -441,37 +468,37 @@ def specHist (k : Nat) (rs : List (Option Env)) : String :=
 def handle (args : List String) : String :=
   match args with
   | ["fresh", k, env, val, pat] =>
-    match k.toNat?, parseEnv env, full pVal val, full pPat pat with
-    | some k, some e, some v, some p =>
-      implRes k (assign ([] :: e) p (some .any) v) ++ tab ++ specRes k (specAssign ([] :: e) p (some .any) v)
-        ++ unmodelled e [v] [p]
-    | _, _, _, _ => "bad-op"
+    match k.toNat?, parseEnv env, full pVal val, full (pPat false) pat, full (pPat true) pat with
+    | some k, some e, some v, some p, some q =>
+      implRes k (assign ([] :: e) p (some .any) v) ++ tab ++ specRes k (specAssign ([] :: e) q (some .any) v)
+        ++ unmodelled e [v] [p, q]
+    | _, _, _, _, _ => "bad-op"
   | ["assign", k, env, val, pat] =>
-    match k.toNat?, parseEnv env, full pVal val, full pPat pat with
-    | some k, some e, some v, some p =>
-      implRes k (assign e p none v) ++ tab ++ specRes k (specAssign e p none v) ++ unmodelled e [v] [p]
-    | _, _, _, _ => "bad-op"
+    match k.toNat?, parseEnv env, full pVal val, full (pPat false) pat, full (pPat true) pat with
+    | some k, some e, some v, some p, some q =>
+      implRes k (assign e p none v) ++ tab ++ specRes k (specAssign e q none v) ++ unmodelled e [v] [p, q]
+    | _, _, _, _, _ => "bad-op"
   | "switch" :: k :: env :: val :: pats =>
-    match k.toNat?, parseEnv env, full pVal val, pats.mapM (full pPat) with
-    | some k, some e, some v, some ps =>
+    match k.toNat?, parseEnv env, full pVal val, pats.mapM (full (pPat false)), pats.mapM (full (pPat true)) with
+    | some k, some e, some v, some ps, some qs =>
       let i := match switchArm e v ps 0 with
         | .ok (i, ee) => s!"ok {i};" ++ dump k ee
         | .throw => "throw"
         | .panic => "panic"
-      let s := match specSwitch e v ps 0 with
+      let s := match specSwitch e v qs 0 with
         | some (i, ee) => s!"ok {i};" ++ dump k ee
         | none => "throw"
-      i ++ tab ++ s ++ unmodelled e [v] ps
-    | _, _, _, _ => "bad-op"
+      i ++ tab ++ s ++ unmodelled e [v] (ps ++ qs)
+    | _, _, _, _, _ => "bad-op"
   | "bind" :: k :: env :: vals :: pats =>
-    match k.toNat?, parseEnv env, full pVal vals, pats.mapM (full pPat) with
-    | some k, some e, some (.list vs), some ps =>
-      implRes k (bindParams e ps vs) ++ tab ++ specRes k (specBindParams e ps vs) ++ unmodelled e vs ps
-    | _, _, _, _ => "bad-op"
+    match k.toNat?, parseEnv env, full pVal vals, pats.mapM (full (pPat false)), pats.mapM (full (pPat true)) with
+    | some k, some e, some (.list vs), some ps, some qs =>
+      implRes k (bindParams e ps vs) ++ tab ++ specRes k (specBindParams e qs vs) ++ unmodelled e vs (ps ++ qs)
+    | _, _, _, _, _ => "bad-op"
   | "hist" :: k :: env :: stmts =>
-    match k.toNat?, parseEnv env, stmts.mapM (full pStmt) with
-    | some k, some e, some ss => implHist k (execHistory e ss) ++ tab ++ specHist k (specHistory e ss)
-    | _, _, _ => "bad-op"
+    match k.toNat?, parseEnv env, stmts.mapM (full (pStmt false)), stmts.mapM (full (pStmt true)) with
+    | some k, some e, some ss, some ts => implHist k (execHistory e ss) ++ tab ++ specHist k (specHistory e ts)
+    | _, _, _, _ => "bad-op"
   | ["istype", ty, val] =>
     match full pTy ty, full pVal val with
     | some t, some v =>
